@@ -8,12 +8,16 @@
    STRICT MODE: proved for the whole expression language, every operator, capabilities included.
    PERMISSIVE MODE: the statement is FALSE of the code as it stands (C15_permissive_refuted = known finding F29; the behaviour is pinned
    by the repository's corpus tests).
-   Not covered by a theorem (decided by the direct oracle of the check): the policy-level glue - enumeration of request environments
-   from the scope, effect / scope typing, the conjunction of several conditions - and the conformance checkers themselves
-   (entity.go, request.go, check_value.go: env_ok is their specification). *)
+   POLICY LEVEL: Impl/ValidatePolicy.v models Validator.Policy (scope validation, action application, enumeration and filtering of the
+   request environments, every condition in every environment), tied by the `vverdict` correspondence; C15_policy_sound: an accepted
+   policy, evaluated as the authorizer evaluates it (scope tests && conditions), yields a Boolean or an allowed error for every conforming
+   request and store.  Proofs/PolicySoundProofs.v.
+   Not covered by a theorem (decided by the direct oracle of the check): the conformance checkers themselves (entity.go, request.go,
+   check_value.go: env_ok / request_env / actions_conform are their specification). *)
 From Coq Require Import ZArith List Bool.
 Import ListNotations.
-From Cedar Require Import Lang.Value Lang.Expr Impl.Eval Impl.TypeCheck Lang.TypeSound Proofs.TypeSoundLemmas Proofs.TypeSoundProofs.
+From Cedar Require Import Lang.Value Lang.Expr Impl.Eval Impl.TypeCheck Impl.ValidatePolicy Lang.TypeSound Proofs.TypeSoundLemmas Proofs.TypeSoundProofs
+  Proofs.PolicySoundProofs.
 
 (* if the strict type checker accepts e with type t, then in every conforming environment evaluation yields a value of type t (and
    the capabilities e establishes when true), or fails with one of the three allowed error kinds: never a type error, an unknown
@@ -34,6 +38,20 @@ Theorem C15_strict_sound : forall sch tv e, schema_wf sch -> tenv_wf sch tv -> a
     end.
 Proof. exact typeof_sound_strict. Qed.
 
+(* the property itself: if Validator.Policy accepts p (strict mode), then for every request environment of the schema (request_env: the
+   action is declared and applies to the principal and resource types, the context has the declared type - what Validator.Request checks)
+   and every conforming request and store, evaluating the policy as the authorizer does never fails with a type, arity, unknown-function
+   or missing attribute / tag error, and yields a Boolean *)
+Theorem C15_policy_sound : forall sch acts p,
+  schema_wf sch -> agraph_wf sch -> acts_wf sch acts -> policy_keys_small p = true ->
+  validate_policy true sch acts p = true ->
+  forall en tv, request_env sch acts tv -> env_ok sch tv en -> actions_conform sch (e_store en) -> store_types_known sch (e_store en) ->
+    match eval en (policy_to_expr p) with
+    | Ok v => exists b, v = VBool b
+    | Err k => allowed_error k = true
+    end.
+Proof. exact validate_policy_sound. Qed.
+
 (* without any hypothesis on the store beyond conformance, for expressions that do not use `in` *)
 Theorem C15_strict_sound_in_free : forall sch tv e, schema_wf sch -> tenv_wf sch tv -> in_free_small e = true -> sound_at sch true tv e.
 Proof. exact typeof_sound_strict_in_free. Qed.
@@ -52,6 +70,7 @@ Proof. exact permissive_unsound. Qed.
    not declare) makes an accepted expression fail with a type error *)
 Definition C15_strict_needs_action_conformance := strict_needs_action_conformance.
 
+Print Assumptions C15_policy_sound.
 Print Assumptions C15_strict_sound.
 Print Assumptions C15_strict_sound_in_free.
 Print Assumptions C15_types_well_formed.
